@@ -3,7 +3,9 @@ package c11
 
 import (
 	"fmt"
+	"github.com/flowmatters/openwater-core/data"
 	"math"
+	"owverif.local/verif/mrun"
 
 	"owverif.local/verif/gridx"
 	"owverif.local/verif/vf"
@@ -285,6 +287,33 @@ func lagOracle(c *gridx.Case, r *vf.Rec) {
 			return
 		}
 	}
+	// the same cell next to a cell with the longest lag (8) in ONE vectorised model, the series delivered in windows of
+	// one and of two steps with the rectangular state array carried forward: the delay must still be the cell's own lag
+	if c.IIdx == 0 {
+		for _, win := range []int{1, 2} {
+			var states data.ND2Float64
+			var got []float64
+			other := make([]float64, n)
+			for from := 0; from < n; from += win {
+				to := from + win
+				if to > n {
+					to = n
+				}
+				seg := [][][]float64{{in[from:to]}, {other[from:to]}}
+				var out [][][]float64
+				out, states = mrun.RunCells("Lag", [][]float64{{float64(lag)}, {8}}, seg, to-from, states)
+				got = append(got, out[0][0]...)
+			}
+			for t := 0; t < n; t++ {
+				if got[t] != want[t] {
+					r.Failf("C11/Lag/outflow-not-delayed-inflow/next-to-a-longer-lag-cell/"+cls, map[string]interface{}{"lag": lag, "window": win, "inflow": in, "outflow": got, "want_outflow": want},
+						"Lag %d next to a lag-8 cell, windows of %d: outflow %v, want %v", lag, win, got, want)
+					return
+				}
+			}
+			r.Count("lag_windowed_paired_runs", 1)
+		}
+	}
 	r.MarkNontrivial()
 }
 
@@ -337,7 +366,7 @@ func Spec() *vf.Check {
 		ID: "C11", Level: "exploration", BlockSize: 512,
 		Rule: "StorageRouting: (k,m) in {(21600,1),(86400,0.8),(172800,0.6),(50000,0.9995),(1e6,0.3),(1e6,0.2),(5e6,0.5),(2e5,0.4)} x dead storage {0,5e4} x bias {0,0.2} x area {0,1e4} x every word of length T over 11 (inflow,lateral,rain,evap) letters: per-step balance, Q>=0, S>=0, S=k*Q^m+dead within the solver tolerance (bias 0). " +
 			"Muskingum: (K,X) grid in the stable region x every (inflow,lateral) word + 600-step zero tail: event volume conserved (also when the event is cut into consecutive calls, states carried forward: every combination of cuts for events of up to 4 steps, every single cut / a cut after every step / after every second step for longer ones), no negative outflow; every letter as a 400-step steady flow passes unchanged (in one call and in 100 calls of 4 steps). " +
-			"Lag: lag {0,1,2,3,5,8} x every word of every length 1..T+2 over {0,1,7} x {zero, pre-filled} carried-over buffer: FIFO reference for outputs and final buffer. distinct_nontrivial = cases with non-zero flow.",
+			"Lag: lag {0,1,2,3,5,8} x every word of every length 1..T+2 over {0,1,7} x {zero, pre-filled} carried-over buffer: FIFO reference for outputs and final buffer; also next to a lag-8 cell in one vectorised model, delivered in windows of 1 and 2 steps. distinct_nontrivial = cases with non-zero flow.",
 		Assumptions: []string{"potential net evaporation is bounded using the loosest reading of the units (area*(evap-rain)/dt)", "StorageRouting S(Q) law is required up to the solver's two stopping tolerances: a balance residual <= massBalanceLimit or an index flow within 2*convergenceLimit of the exact root (near Q=0 with m<1 the S(Q) slope is unbounded, so the second one matters); the exact root is found by bisection in the harness", "lattice values only"},
 		Build:       func(tier string) vf.Enumeration { return gridx.NewEnum("C11", spaces(tier)) },
 	}
